@@ -90,8 +90,15 @@ void harness(void) {
     uint8_t* bmin[NRG]; uint8_t* bmax[NRG]; bool present[NRG]; bool x_matches[NRG];
     for (int g = 0; g < NRG; g++) {
         struct grp* G = &IN.g[g];
+#ifdef BADLEN
+        /* file-supplied statistics of the WRONG size for a fixed-width column (a malformed or hostile footer): min/max are exact-size heap
+           objects of 1..W bytes; such statistics bound nothing - the calls must stay inside them (CBMC bounds checks) and keep the group */
+        size_t lmin = G->lmin, lmax = G->lmax, lx = W;
+        VERIF_ASSUME(lmin >= 1 && lmin <= W && lmax >= 1 && lmax <= W && (lmin < W || lmax < W));
+#else
         size_t lmin = VARLEN ? G->lmin : W, lmax = VARLEN ? G->lmax : W, lx = VARLEN ? G->lx : W;
         VERIF_ASSUME(lmin <= (VARLEN ? LEN : W) && lmax <= (VARLEN ? LEN : W) && lx <= (VARLEN ? LEN : W));
+#endif
         VERIF_ASSUME(G->layout <= 7);
         bool lo_ignored = false, hi_ignored = false;
 #if NANMODE == 2
@@ -100,9 +107,13 @@ void harness(void) {
 #endif
         if (ISFLT) VERIF_ASSUME((lo_ignored || !o_isnan(TYPE, G->min)) && (hi_ignored || !o_isnan(TYPE, G->max)) && !o_isnan(TYPE, G->x));
         /* statistics are true bounds of the row group's value x (a NaN bound says nothing and is ignored, as Parquet prescribes) */
+#ifdef BADLEN
+        x_matches[g] = true;                 /* statistics of the wrong size say nothing: the group must be kept whatever it holds */
+#else
         if (!lo_ignored) VERIF_ASSUME(o_cmp(TYPE, G->min, lmin, G->x, lx, false) <= 0);
         if (!hi_ignored) VERIF_ASSUME(o_cmp(TYPE, G->x, lx, G->max, lmax, false) <= 0);
         x_matches[g] = o_op_holds(IN.op, o_cmp(TYPE, G->x, lx, IN.probe, lp, false));
+#endif
 #if NANMODE == 1
         x_matches[g] = IN.op == 1;           /* IEEE: x != NaN holds for every x, every other comparison with NaN is false */
 #endif
@@ -145,7 +156,9 @@ void harness(void) {
         VERIF_ASSERT(cs.has_min_max == present[g], "min/max are reported iff given in the new or in the deprecated fields");
         if (cs.has_min_max) {
             VERIF_ASSERT(cs.min_value == bmin[g] && cs.max_value == bmax[g], "reported min/max are the stored min/max (not swapped)");
+#ifndef BADLEN
             VERIF_ASSERT((size_t)cs.min_value_size == (VARLEN ? G->lmin : W) && (size_t)cs.max_value_size == (VARLEN ? G->lmax : W), "reported sizes are the stored sizes");
+#endif
         }
         if (G->layout <= 2 || G->layout == 5 || G->layout == 6) {
             VERIF_ASSERT(cs.has_null_count == (G->has_nulls != 0), "null_count presence passes through");
